@@ -180,6 +180,7 @@ class EvScenario:
             rec["sol_len"] = len(ode._OdeSystem__sol)
             rec["events"] = [(e.event, float(e.t)) for e in ode.events]
             rec["y_last"] = np.array(ode.y[-1])
+            rec["knots"] = [float(x) for x in (ode._OdeSystem__sol.t_eval or [])]
             self.records.append(rec)
         return self.records
 
@@ -219,7 +220,7 @@ class EvScenario:
         return its
 
     def model_line(self):
-        parts = ["loopev %s %s %s" % (fbits(EPS), fbits(TOLEPS), fbits(DUPTOL))]
+        parts = ["loopev %s %s %s %d" % (fbits(EPS), fbits(TOLEPS), fbits(DUPTOL), int(self.dense))]
         self.recording_ok = True
         for op, rec in zip(self.ops, self.records):
             if op[0] == "new":
@@ -273,6 +274,7 @@ class EvScenario:
             ctx.corr(tag + ":dt", d.get("D") == fbits(rec["dt"]), det)
             ctx.corr(tag + ":status", d.get("S") == str(rec["status"]), det)
             ctx.corr(tag + ":capacity", d.get("C") == str(rec["cap"]), det)
+            ctx.corr(tag + ":dense-output-knots", d.get("K", "-") == (flist(rec["knots"]) if rec["knots"] else flist([])), dict(det, impl_knots=rec["knots"][-5:], n_impl=len(rec["knots"]), model_knots=str(d.get("K"))[-200:]))
             if op[0] in ("int", "evint"):
                 calls = [e for e in rec["log"] if e["kind"] == "call"]
                 outer = [e for e in calls if e["depth"] == 1]
